@@ -29,8 +29,8 @@ Inductive case :=
      and the error class of `new RegExp(pat)` / a literal *)
 | CAst (r : re) (pat out : list Z) (err : bool) (cls : Z)
   (* constructor outcome on mutated input: kind 1 = malformed, caught by otto's
-     scanner; 2 = malformed, left to the engine; 3 = flags with an unknown or
-     repeated letter; 4 = [] / [^] (valid ES5, no engine spelling); 5 = malformed
+     scanner (SyntaxError); 2 = malformed, left to the engine; 3 = flags with an
+     unknown or repeated letter (SyntaxError); 4 = [] / [^] (valid ES5, no engine spelling); 5 = malformed
      but meaningful to the engine (quantified assertion, (?i) (?P<n>..));
      6 = back-reference \10..\17 .. with that many groups (read as octal) *)
 | CBad (kind : Z) (pat flags : list Z) (cls : Z).
@@ -84,7 +84,7 @@ Definition do_op (o : op) (li : Z) (leg : list ov) : option (list ov * Z * list 
   | OSearch s => wrap (if spec_side then search_spec mt li s else search_model mt dv li s)
   | OSplit s lim =>
       wrap (if spec_side then split_spec mt li s (lim32 lim)
-            else split_model mt dv li s (lim32 lim) (match lim with None => false | _ => true end))
+            else split_model mt li s (lim32 lim) (match lim with None => false | _ => true end))
   | OReplS s rp => wrap (if spec_side then replace_spec mt g li s (Some rp) else replace_model mt dv g li s (Some rp))
   | OReplF s => wrap (if spec_side then replace_spec mt g li s None else replace_model mt dv g li s None)
   | OProps => Some ([OS pat; OB g; OB fi; OB fm; OS ([47] ++ pat ++ [47] ++ flag_text)], li, leg)
@@ -108,13 +108,11 @@ Definition engine (sm : sem) (fl : mflags) (r : re) : list Z -> nat -> mres :=
 
 (* the configurations between ES5 (k = 0) and otto (k = 9): deviations 1..k switched on *)
 Definition cfg_sem (k : Z) : sem := mkSem (negb (1 <=? k)) (negb (2 <=? k)) (negb (3 <=? k)).
-Definition cfg_dev (k : Z) : dev := mkDev (4 <=? k) (5 <=? k) (6 <=? k) (7 <=? k) (8 <=? k) (9 <=? k).
+Definition cfg_dev (k : Z) : dev := mkDev (4 <=? k) (5 <=? k) (6 <=? k) (7 <=? k) (9 <=? k).
 
 Definition run_sd (sm : sem) (dv : dev) (r : re) (g i m : bool) (ops : list op) : option (list ov * list ov) :=
   do_ops false (engine sm (mkFlags i m) r) dv g i m (print_js r) ops 0 legacy0 [] [].
 Definition run_cfg (k : Z) := run_sd (cfg_sem k) (cfg_dev k).
-(* otto with the proposed repair of finding 8 ("".split) applied *)
-Definition run_repaired := run_sd re2 (mkDev true true true true false true).
 Definition run_otto := run_cfg 9.
 Definition run_es5 (r : re) (g i m : bool) (ops : list op) : option (list ov * list ov) :=
   do_ops true (engine es5 (mkFlags i m) r) all_off g i m (print_js r) ops 0 legacy0 [] [].
@@ -124,11 +122,12 @@ Definition run_es5 (r : re) (g i m : bool) (ops : list op) : option (list ov * l
    1 captures not reset per iteration   2 empty iterations of quantified atoms
    3 engine character tables (\s . ^ $) 4 lastIndex cut is a string start
    5 byte offsets in lastIndex / search 6 empty match adjacent to a match
-   7 global match/replace lastIndex and undefined
-   8 "".split(re)                       9 $10
-   constructor outcomes: 10 TypeError for a malformed pattern, 11 unknown flags
-   accepted, 12 [] and [^] rejected, 13 malformed patterns accepted,
-   14 two-digit back-reference translated as an octal escape *)
+   7 global match/replace lastIndex and undefined           9 $10
+   constructor outcomes: 12 [] and [^] rejected, 13 malformed patterns accepted,
+   14 two-digit back-reference translated as an octal escape
+   (8 "".split(re), 10 TypeError for a malformed pattern and 11 unknown flags
+   accepted were repaired in /repo: a84f554, ef38bfe, 784edea; the model has the
+   repaired code, so their return is a violation, not a known deviation) *)
 Fixpoint first_class (n : nat) (k : Z) (r : re) (g i m : bool) (ops : list op) (spec : list ov) : Z :=
   match n with
   | O => 90
@@ -161,16 +160,7 @@ Definition verdict (c : case) : Z * Z :=
             if negb (lov_eqb leg ml) then (3, 96)
             else if lov_eqb mo so then judge lov_eqb obs mo so 0
             else
-              let v := judge lov_eqb obs mo so (first_class 9 1 r g i m ops so) in
-              if fst v =? 3 then
-                (* not otto as modelled and not ES5: is it otto with finding 8 repaired
-                   (proposed_fixes/C10-split-empty-subject.diff)?  then the finding no
-                   longer reproduces, which is a note, not a violation *)
-                match run_repaired r g i m ops with
-                | Some (mo2, _) => if lov_eqb obs mo2 then (2, 8) else v
-                | None => v
-                end
-              else v
+              judge lov_eqb obs mo so (first_class 9 1 r g i m ops so)
         | _, _ =>
             (* outside the modelled / ES5-defined domain: only an exception or a Go panic is judged *)
             if existsb is_exc obs then (3, 94) else declined
@@ -194,18 +184,15 @@ Definition verdict (c : case) : Z * Z :=
                   (out, err, nz cls) (mo, me, if me then 1 else 0) spec 0
         end
   | CBad kind pat flags cls =>
+      (* ctor_class = newRegExpObject up to regexp.Compile; when the pattern reaches the
+         engine (0) the engine rejects the malformed kinds 1, 2, 4 and accepts kinds 5, 6 *)
       let model :=
-        match parse_flags flags with
-        | None => 5
-        | Some _ =>
-            match transform idc_small pat with
-            | None => 99
-            | Some (_, true) => 6                       (* panicTypeError *)
-            | Some (_, false) => if (kind =? 3) || (kind =? 5) || (kind =? 6) then 0 else 5   (* engine's verdict *)
-            end
+        match ctor_class idc_small pat flags with
+        | 0 => if (kind =? 5) || (kind =? 6) then 0 else 5
+        | c => c
         end in
       (* kind 6: the property asks for the error otto gives for every other back-reference *)
       let spec := if kind =? 4 then 0 else if kind =? 6 then 6 else 5 in
-      judge Z.eqb cls model spec (if kind =? 3 then 11 else if kind =? 4 then 12 else if kind =? 5 then 13
-                                  else if kind =? 6 then 14 else 10)
+      judge Z.eqb cls model spec (if kind =? 4 then 12 else if kind =? 5 then 13
+                                  else if kind =? 6 then 14 else 90)
   end.
